@@ -12,7 +12,7 @@ Proof.
     destruct (flag s); [discriminate|reflexivity].
   - rewrite (Hw eq_refl). split; [|reflexivity]. destruct (flag s); [discriminate|reflexivity].
   - rewrite (Hp eq_refl). destruct x; try discriminate;
-      (split; [|reflexivity]); apply Nat.eqb_eq in Hb; rewrite Hb; reflexivity.
+      (split; [|reflexivity]); apply negb_true_iff in Hb; exact Hb.
 Qed.
 
 (* In every reachable state in which the loop thread sits in its idle wait with the wake object not
@@ -59,3 +59,7 @@ Proof.
   destruct (lock s) as [[o d]|]; [|lia].
   destruct (Nat.eqb_spec t o); destruct (Nat.eqb_spec u o); subst; try lia.
 Qed.
+
+(* the invariant behind the poller case: descriptor maintenance never drops the control descriptor *)
+Theorem control_watched : forall m s, reachable m s -> watched s = true.
+Proof. intros m s Hr. exact (proj2 (iw s (Inv_reachable _ _ Hr))). Qed.
